@@ -308,9 +308,324 @@ static plan::Plan genC01a(uint64_t seed, const std::string& tier) {
   return p;
 }
 
+// ---------------------------------------------------------------------------------------------
+// requests and reactions
+// ---------------------------------------------------------------------------------------------
+struct ReqGen {
+  std::vector<std::string> seen;
+  int counter = 0;
+  Bytes make(Rng& r, uint8_t own, int dstKind = -1) {
+    for (;;) {
+      Tg t = randomTelegram(r, dstKind);
+      t.master[0] = own;
+      if (t.master[1] == own || t.master[1] == ref::slaveOf(own)) continue;
+      // make the payload unique within the run
+      counter++;
+      if (t.master.size() >= 7) { t.master[5] = static_cast<uint8_t>(counter); t.master[6] = static_cast<uint8_t>(0xC0 + (counter >> 8)); }
+      else { t.master[2] = static_cast<uint8_t>(counter); }
+      std::string h = ref::hex(t.master);
+      if (std::find(seen.begin(), seen.end(), h) != seen.end()) continue;
+      seen.push_back(h);
+      return t.master;
+    }
+  }
+};
+
+static std::string reactLine(Rng& r, int variant) {
+  // variant < 0: random mix, mostly well behaved; otherwise the enumerated alternative
+  char buf[256];
+  char ack1 = 'A', ack2 = 'A', resp1 = 'G', resp2 = 'G';
+  int echobad = -1;
+  int ackval = 0x55;
+  static const char acks[] = {'A', 'N', 'X', '-', 'S'};
+  static const char resps[] = {'G', 'C', 'T', 'L', '-'};
+  if (variant < 0) {
+    int k = static_cast<int>(r.below(100));
+    if (k < 55) { /* good */ }
+    else if (k < 65) { ack1 = 'N'; ack2 = acks[r.below(5)]; }
+    else if (k < 72) { ack1 = acks[2 + r.below(3)]; }
+    else if (k < 88) { resp1 = resps[1 + r.below(4)]; resp2 = resps[r.below(5)]; }
+    else { echobad = static_cast<int>(r.below(24)); }
+    if (r.chance(0.1)) { ack1 = 'N'; ack2 = 'A'; resp1 = 'C'; resp2 = 'G'; }
+  } else {
+    int v = variant;
+    if (v == 0) {}
+    else if (v <= 4) { ack1 = 'N'; ack2 = acks[v == 1 ? 0 : v]; }           // N then A/X/-/S
+    else if (v == 5) { ack1 = 'N'; ack2 = 'N'; }
+    else if (v <= 8) { ack1 = acks[v - 4]; }                                 // X - S
+    else if (v <= 24) { int q = v - 9; resp1 = resps[1 + q / 4]; resp2 = resps[(q % 4) == 3 ? 4 : (q % 4)]; }
+    else { echobad = v - 25; }
+  }
+  ackval = 1 + static_cast<int>(r.below(254));
+  if (ackval == 0xAA || ackval == 0xFF) ackval = 0x55;
+  // response data: unique, escape heavy
+  Bytes data;
+  int nn = biasedLen(r);
+  data.push_back(static_cast<uint8_t>(nn));
+  for (int i = 0; i < nn; i++) data.push_back(biasedByte(r));
+  snprintf(buf, sizeof(buf), "react ack1=%c ack2=%c resp1=%c resp2=%c ackval=%d echobad=%d xor=%d delay=%d data=%s", ack1, ack2, resp1, resp2,
+           ackval, echobad, 1 << r.below(8), 200 + static_cast<int>(r.below(3000)), ref::hex(data).c_str());
+  return buf;
+}
+static const int kReactVariants = 25 + 24;
+
+static void addRequests(plan::Plan* p, Rng& r, ReqGen* g, uint8_t own, int n, int spanMs, bool allKinds, int firstId) {
+  for (int i = 0; i < n; i++) {
+    Bytes m = g->make(r, own);
+    const char* kind = "sendwait";
+    int restarts = 0;
+    if (allKinds) {
+      int k = static_cast<int>(r.below(10));
+      if (k < 4) kind = "sendwait";
+      else if (k < 7) { kind = "addwait"; restarts = r.chance(0.3) ? 1 + static_cast<int>(r.below(2)) : 0; }
+      else { kind = "fire"; restarts = r.chance(0.3) ? 1 + static_cast<int>(r.below(2)) : 0; }
+    }
+    char buf[256];
+    snprintf(buf, sizeof(buf), "req %s id=%d at=%d master=%s restarts=%d onempty=%d", kind, firstId + i, 100 + static_cast<int>(r.below(static_cast<uint32_t>(spanMs))),
+             ref::hex(m).c_str(), restarts, (allKinds && std::string(kind) == "fire" && r.chance(0.4)) ? 1 : 0);
+    p->add(buf);
+  }
+}
+
+// ---- family c01b: passive reception while own requests are active ----
+static plan::Plan genC01b(uint64_t seed, const std::string& tier) {
+  Rng r(seed);
+  plan::Plan p;
+  addKernelCfg(&p, r, seed, "c01b", true);
+  uint8_t own = addHandlerCfg(&p, r, false, false);
+  int n = tier == "thorough" ? 10 + static_cast<int>(r.below(40)) : 5 + static_cast<int>(r.below(25));
+  addTraffic(&p, r, n, own, 0.3);
+  ReqGen g;
+  int nreq = 1 + static_cast<int>(r.below(5));
+  addRequests(&p, r, &g, own, nreq, n * 90, true, 100);
+  for (int i = 0; i < nreq * 3; i++) p.add(reactLine(r, -1));
+  if (r.chance(0.15)) addStalls(&p, r, n * 80);
+  return p;
+}
+
+// ---- family c02: one caller, every kind of reaction of the addressed participant ----
+static plan::Plan genC02(uint64_t seed, const std::string& tier) {
+  Rng r(seed);
+  plan::Plan p;
+  (void)tier;
+  addKernelCfg(&p, r, seed, "c02", true);
+  uint8_t own = addHandlerCfg(&p, r, false, false);
+  ReqGen g;
+  int nreq = 1 + static_cast<int>(r.below(4));
+  p.add("bus idle n=3");
+  if (r.chance(0.4)) addTraffic(&p, r, 1 + static_cast<int>(r.below(6)), own, 0.2);
+  for (int i = 0; i < nreq; i++) {
+    Bytes m = g.make(r, own);
+    char buf[256];
+    snprintf(buf, sizeof(buf), "req sendwait id=%d at=%d master=%s", 100 + i, 150 + i * 400 + static_cast<int>(r.below(200)), ref::hex(m).c_str());
+    p.add(buf);
+  }
+  for (int i = 0; i < nreq * 4; i++) p.add(reactLine(r, -1));
+  p.add("cfg minms=" + std::to_string(200 + nreq * 400));
+  return p;
+}
+
+// ---- family c02e: fault enumeration: base scenario x every reaction alternative ----
+static plan::Plan genC02e(uint64_t seed, const std::string& tier) {
+  (void)tier;
+  uint64_t idx = seed & 0xffffffffULL;
+  uint64_t base = seed >> 32;
+  uint64_t scenario = idx / kReactVariants;
+  int variant = static_cast<int>(idx % kReactVariants);
+  Rng r(sim::hcomb(base, scenario));
+  plan::Plan p;
+  addKernelCfg(&p, r, seed, "c02e", true);
+  uint8_t own = addHandlerCfg(&p, r, false, false);
+  ReqGen g;
+  Bytes m = g.make(r, own, static_cast<int>(scenario % 3) == 0 ? 0 : static_cast<int>(scenario % 3) == 1 ? 2 : 5);
+  p.add("bus idle n=2");
+  char buf[256];
+  bool direct = r.chance(0.5);
+  snprintf(buf, sizeof(buf), "req %s id=100 at=150 master=%s", direct ? "addwait" : "sendwait", ref::hex(m).c_str());
+  p.add(buf);
+  p.add(reactLine(r, variant));
+  for (int i = 0; i < 8; i++) p.add(reactLine(r, 0));
+  p.add("cfg minms=600 variant=" + std::to_string(variant) + " scenario=" + std::to_string(scenario));
+  return p;
+}
+
+// ---- family c03: contention: scripted masters and ebusd compete for the same SYN ----
+static plan::Plan genC03(uint64_t seed, const std::string& tier) {
+  Rng r(seed);
+  plan::Plan p;
+  addKernelCfg(&p, r, seed, "c03", true);
+  uint8_t own = addHandlerCfg(&p, r, true, false);
+  int n = tier == "thorough" ? 20 + static_cast<int>(r.below(40)) : 10 + static_cast<int>(r.below(25));
+  // dense traffic without idle SYNs so that requests meet scripted masters at the same SYN
+  for (int i = 0; i < n; i++) {
+    Tg t = randomTelegram(r, -1, own);
+    std::vector<Step> s = renderTelegram(t, r, 0, 0);
+    std::string mu = "ok";
+    if (r.chance(0.15)) s = mutate(s, t, r, &mu);
+    addScript(&p, s, r.chance(0.8) ? 0 : 1, mu);
+    if (r.chance(0.1)) p.add("bus sigoff ms=" + std::to_string(100 + r.below(600)));
+  }
+  ReqGen g;
+  int nreq = 2 + static_cast<int>(r.below(5));
+  addRequests(&p, r, &g, own, nreq, n * 60, true, 100);
+  for (int i = 0; i < nreq * 3; i++) p.add(reactLine(r, -1));
+  if (r.chance(0.2)) addStalls(&p, r, n * 60);
+  return p;
+}
+
+static const char* kIoFaults[] = {"readerr", "readzero", "writeerr", "writeshort", "pollerr", "pollhup", "polleintr", "pollearly"};
+
+// ---- family c04: concurrent callers of every kind, device faults, signal loss ----
+static plan::Plan genC04(uint64_t seed, const std::string& tier) {
+  Rng r(seed);
+  plan::Plan p;
+  addKernelCfg(&p, r, seed, "c04", true);
+  uint8_t own = addHandlerCfg(&p, r, false, false);
+  int n = tier == "thorough" ? 5 + static_cast<int>(r.below(25)) : 3 + static_cast<int>(r.below(12));
+  p.add("bus idle n=2");
+  for (int i = 0; i < n; i++) {
+    if (r.chance(0.5)) {
+      Tg t = randomTelegram(r, -1, own);
+      addScript(&p, renderTelegram(t, r, 0, 0), r.chance(0.5) ? 0 : 1 + static_cast<int>(r.below(3)), "ok");
+    } else {
+      p.add("bus idle n=" + std::to_string(1 + r.below(4)));
+    }
+    if (r.chance(0.12)) p.add("bus sigoff ms=" + std::to_string(200 + r.below(1500)));
+  }
+  ReqGen g;
+  int nreq = 1 + static_cast<int>(r.below(6));
+  int span = n * 70 + 200;
+  addRequests(&p, r, &g, own, nreq, span, true, 100);
+  for (int i = 0; i < nreq * 4; i++) p.add(reactLine(r, -1));
+  int nf = static_cast<int>(r.below(4));
+  for (int i = 0; i < nf; i++) {
+    char buf[160];
+    int k = static_cast<int>(r.below(12));
+    if (k < 8) snprintf(buf, sizeof(buf), "fault %s io=%d", kIoFaults[k], 20 + static_cast<int>(r.below(static_cast<uint32_t>(span / 2))));
+    else if (k < 9) snprintf(buf, sizeof(buf), "fault hup at=%d", 100 + static_cast<int>(r.below(static_cast<uint32_t>(span))));
+    else if (k < 10) snprintf(buf, sizeof(buf), "fault openfail at=%d n=%d", static_cast<int>(r.below(static_cast<uint32_t>(span))), 1 + static_cast<int>(r.below(2)));
+    else snprintf(buf, sizeof(buf), "fault stall at=%d thread=%s ms=%d", 100 + static_cast<int>(r.below(static_cast<uint32_t>(span))), r.chance(0.7) ? "bushandler" : "caller",
+                  20 + static_cast<int>(r.below(300)));
+    p.add(buf);
+  }
+  if (r.chance(0.3)) p.add("cfg spurious=0.05");
+  return p;
+}
+
+// ---- family c04e: fault enumeration over the I/O call positions of a base scenario ----
+static plan::Plan genC04e(uint64_t seed, const std::string& tier) {
+  (void)tier;
+  uint64_t idx = seed & 0xffffffffULL;
+  uint64_t base = seed >> 32;
+  const int nKinds = 8, nPos = 60;
+  uint64_t scenario = idx / (nKinds * nPos);
+  int v = static_cast<int>(idx % (nKinds * nPos));
+  int kind = v % nKinds, posIdx = v / nKinds;
+  Rng r(sim::hcomb(base, scenario) ^ 0x04e);
+  plan::Plan p;
+  addKernelCfg(&p, r, seed, "c04e", true);
+  uint8_t own = addHandlerCfg(&p, r, false, false);
+  p.add("bus idle n=2");
+  for (int i = 0; i < 4; i++) {
+    Tg t = randomTelegram(r, -1, own);
+    addScript(&p, renderTelegram(t, r, 0, 0), 1, "ok");
+  }
+  ReqGen g;
+  addRequests(&p, r, &g, own, 3, 300, true, 100);
+  for (int i = 0; i < 12; i++) p.add(reactLine(r, 0));
+  // I/O positions: the scenario performs a few hundred calls on the device fd; sweep them with stride 3 from 10 on
+  char buf[160];
+  snprintf(buf, sizeof(buf), "fault %s io=%d", kIoFaults[kind], 10 + posIdx * 3);
+  p.add(buf);
+  p.add("cfg scenario=" + std::to_string(scenario) + " variant=" + std::to_string(v));
+  return p;
+}
+
+// ---- family c15: answer mode ----
+static plan::Plan genC15(uint64_t seed, const std::string& tier) {
+  Rng r(seed);
+  plan::Plan p;
+  addKernelCfg(&p, r, seed, "c15", false);
+  uint8_t own = addHandlerCfg(&p, r, false, false, 1);
+  uint8_t ownSlave = ref::slaveOf(own);
+  // registered answers
+  struct Ans { int src; uint8_t dst, pb, sb; Bytes id, data; };
+  std::vector<Ans> answers;
+  int na = 1 + static_cast<int>(r.below(5));
+  uint8_t pbs[2] = {biasedByte(r), biasedByte(r)};
+  for (int i = 0; i < na; i++) {
+    Ans a;
+    a.src = r.chance(0.3) ? r.pick(masters()) : -1;
+    if (a.src == own) a.src = -1;
+    int dk = static_cast<int>(r.below(10));
+    a.dst = dk < 5 ? ownSlave : dk < 8 ? own : (r.chance(0.5) ? randomSlaveAddr(r) : r.pick(masters()));
+    a.pb = pbs[r.below(2)];
+    a.sb = pbs[r.below(2)];
+    int idl = static_cast<int>(r.below(5));
+    // share prefixes between answers
+    for (int k = 0; k < idl; k++) a.id.push_back(static_cast<uint8_t>(r.chance(0.7) ? 0x10 + k : biasedByte(r)));
+    if (ref::isMaster(a.dst)) {
+      int tail = static_cast<int>(r.below(4));
+      a.data.push_back(static_cast<uint8_t>(tail));
+      for (int k = 0; k < tail; k++) a.data.push_back(0);
+    } else {
+      int nn = biasedLen(r);
+      a.data.push_back(static_cast<uint8_t>(nn));
+      for (int k = 0; k < nn; k++) a.data.push_back(biasedByte(r));
+    }
+    answers.push_back(a);
+    char buf[300];
+    std::string srcs = a.src >= 0 ? " src=" + hexByte(a.src) : "";
+    snprintf(buf, sizeof(buf), "answer dst=%s pb=%s sb=%s id=%s data=%s%s", hexByte(a.dst).c_str(), hexByte(a.pb).c_str(), hexByte(a.sb).c_str(),
+             ref::hex(a.id).c_str(), ref::hex(a.data).c_str(), srcs.c_str());
+    p.add(buf);
+  }
+  int n = tier == "thorough" ? 10 + static_cast<int>(r.below(40)) : 6 + static_cast<int>(r.below(20));
+  p.add("bus idle n=2");
+  for (int i = 0; i < n; i++) {
+    if (r.chance(0.25)) { addTraffic(&p, r, 1, own, 0.2); continue; }
+    // a telegram derived from a registered answer: same/shorter/longer ID, other source, other destination
+    const Ans& a = answers[r.below(static_cast<uint32_t>(answers.size()))];
+    uint8_t qq;
+    do { qq = r.chance(0.5) && a.src >= 0 ? static_cast<uint8_t>(a.src) : r.pick(masters()); } while (qq == own);
+    uint8_t zz = r.chance(0.85) ? a.dst : (r.chance(0.5) ? ownSlave : own);
+    if (zz == qq) zz = ownSlave;
+    Bytes id = a.id;
+    int how = static_cast<int>(r.below(10));
+    if (how < 2 && !id.empty()) id.pop_back();
+    else if (how < 5) { int extra = 1 + static_cast<int>(r.below(12)); for (int k = 0; k < extra && id.size() < 16; k++) id.push_back(biasedByte(r)); }
+    else if (how < 6 && !id.empty()) id[r.below(static_cast<uint32_t>(id.size()))] ^= 0x40;
+    if (ref::isMaster(zz) && r.chance(0.6)) {
+      // master destination: ID followed by a data tail of the registered length
+      id = a.id;
+      size_t tail = a.data.empty() ? 0 : a.data[0];
+      for (size_t k = 0; k < tail && id.size() < 16; k++) id.push_back(biasedByte(r));
+    }
+    Bytes m = {qq, zz, r.chance(0.9) ? a.pb : biasedByte(r), r.chance(0.9) ? a.sb : biasedByte(r), static_cast<uint8_t>(id.size())};
+    m.insert(m.end(), id.begin(), id.end());
+    Bytes wire = ref::renderMasterPart(m);
+    bool badFirst = r.chance(0.2);
+    std::vector<Step> steps;
+    addBytes(&steps, badFirst ? corruptCrc(wire) : wire, 'M', r);
+    Bytes second = r.chance(0.25) ? corruptCrc(wire) : wire;
+    char buf[600];
+    snprintf(buf, sizeof(buf), "bus requester idle=%d slave=%d nakresp=%d second=%s note=%s steps=%s", static_cast<int>(r.below(2)), ref::isMaster(zz) ? 0 : 1,
+             r.chance(0.25) ? 1 + static_cast<int>(r.below(2)) : 0, ref::hex(second).c_str(), badFirst ? "badcrc" : "ok", simbus::stepsToText(steps).c_str());
+    p.add(buf);
+  }
+  return p;
+}
+
 struct Reg {
   Reg() {
     hz::registerFamily(hz::Family{"c01a", "l1", genC01a, "passive reception: well-formed, mutated and noisy traffic, no own requests"});
+    hz::registerFamily(hz::Family{"c01b", "l1", genC01b, "passive reception while own requests of all kinds are active"});
+    hz::registerFamily(hz::Family{"c02", "l1", genC02, "active requests against a reacting participant (random reactions)"});
+    hz::registerFamily(hz::Family{"c02e", "l1", genC02e, "fault enumeration: base scenario x every reaction/echo alternative", true});
+    hz::registerFamily(hz::Family{"c03", "l1", genC03, "contention: dense scripted traffic, requests at every phase, signal loss"});
+    hz::registerFamily(hz::Family{"c04", "l1", genC04, "concurrent callers of every kind, device faults, signal loss, stalls"});
+    hz::registerFamily(hz::Family{"c04e", "l1", genC04e, "fault enumeration over I/O call positions x fault kinds of a base scenario", true});
+    hz::registerFamily(hz::Family{"c15", "l1", genC15, "answer mode: registered answers and telegrams derived from them"});
   }
 } g_reg;
 
